@@ -107,6 +107,35 @@ def search(tier='quick'):
                         {'clause': 'point-demand-out-of-range', 'observed': '%s, function applied to %r' % (outcome, sorted(log)),
                          'expected': 'IndexError, no application'}]})
                     return cases, fails
+    # constructions over inputs that cannot tell their length (lazy filter / unbatch / catch): whether the constructor accepts
+    # or refuses them, it applies no user function (C08-H: a length probe by iteration ran the whole pipeline)
+    lengthless = {'filter': lambda d: d.filter(lambda x: True), 'batch.unbatch': lambda d: d.batch(2).unbatch(), 'catch': lambda d: d.catch()}
+    other_mk = {'plain': lambda: lazy_dataset.new({'o%02d' % i: 100 + i for i in range(n)})}
+    builders = {'intersperse': lambda a, b: a.intersperse(b), 'intersperse(rev)': lambda a, b: b.intersperse(a), 'zip': lambda a, b: a.zip(b),
+                'zip(rev)': lambda a, b: b.zip(a), 'concatenate': lambda a, b: a.concatenate(b), 'lazy_dataset.intersperse': lambda a, b: lazy_dataset.intersperse(a, b),
+                'tile': lambda a, b: a.tile(2), 'batch': lambda a, b: a.batch(3), 'prefetch(1)': lambda a, b: a.prefetch(1, 2), 'local shuffle': lambda a, b: a.shuffle(True, buffer_size=3),
+                'apply(lazy)': lambda a, b: a.apply(lambda d: d, lazy=True), 'items': lambda a, b: a.items(), 'cycle': lambda a, b: a.cycle()}
+    for lname, lmk in lengthless.items():
+        for bname, bmk in builders.items():
+            cases += 1
+            log = []
+
+            def f(x):
+                log.append(x)
+                return x
+            a = lmk(lazy_dataset.new({'k%02d' % i: i for i in range(n)}).map(f))
+            if log:
+                fails.append({'scenario': 'constructing map.%s' % lname, 'mismatches': [{'clause': 'construction', 'observed': 'map function called on %r' % log, 'expected': 'no call'}]})
+                return cases, fails
+            try:
+                bmk(a, other_mk['plain']())
+                outcome = 'accepted'
+            except Exception as e:      # noqa
+                outcome = 'refused (%s)' % type(e).__name__
+            if log:
+                fails.append({'scenario': 'constructing %s over map.%s (no length): %s' % (bname, lname, outcome), 'mismatches': [
+                    {'clause': 'construction', 'observed': 'map function called on %r' % log[:8], 'expected': 'no call'}]})
+                return cases, fails
     return cases, fails
 
 
